@@ -194,6 +194,15 @@ class Dims:
     def bounded(self, fk, blk, e):
         """the Dist-valued expression e is bounded at block blk: a dominating guard `e < N|K` (true edge) or `0 < (e as iN)`"""
         body = self.bodies[fk]; dg = self.dags[fk]
+        # a bounded distance plus / minus a literal is still a small number (`len_before + 1` handed on as the length after)
+        while True:
+            x = strip_casts(e)
+            if x[0] == "pair": e = x[1]; continue
+            if x[0] == "bin" and x[1].rstrip("!~") in ("Add", "Sub") and strip_casts(x[3])[0] == "const" and isinstance(strip_casts(x[3])[1], int) and abs(strip_casts(x[3])[1]) <= 2:
+                e = x[2]; continue
+            if x[0] == "bin" and x[1].rstrip("!~") == "Add" and strip_casts(x[2])[0] == "const" and isinstance(strip_casts(x[2])[1], int) and abs(strip_casts(x[2])[1]) <= 2:
+                e = x[3]; continue
+            break
         ne = D.norm(strip_casts(e))
         for b in body.reachable:
             c = D.cmp_of_switch(body, dg, b)
